@@ -23,9 +23,12 @@ import (
 	"context"
 	"time"
 
+	"entgo.io/ent/dialect/sql"
 	"github.com/google/uuid"
 
 	"go.6river.tech/mmmbbb/ent"
+	"go.6river.tech/mmmbbb/ent/predicate"
+	"go.6river.tech/mmmbbb/ent/subscription"
 	"go.6river.tech/mmmbbb/ent/topic"
 	"go.6river.tech/mmmbbb/logging"
 )
@@ -56,6 +59,16 @@ func (a *PruneDeletedTopics) Execute(ctx context.Context, tx *ent.Tx) error {
 			// we rely on subscriptions being pruned to then allow topics to be pruned
 			// UPSTREAM: ticket for HasRelationWith efficiency
 			topic.Not(topic.HasSubscriptions()),
+			// a deleted topic that is still some subscription's dead-letter topic has
+			// to stay too: that foreign key is ON DELETE SET NULL, so pruning the topic
+			// would silently take the dead-letter policy away from the subscription
+			predicate.Topic(func(s *sql.Selector) {
+				t := sql.Table(subscription.Table)
+				s.Where(sql.NotExists(
+					sql.Select(t.C(subscription.FieldID)).From(t).
+						Where(sql.ColumnsEQ(t.C(subscription.FieldDeadLetterTopicID), s.C(topic.FieldID))),
+				))
+			}),
 		).
 		Limit(a.params.MaxDelete).
 		All(ctx)
